@@ -357,6 +357,36 @@ class FamilyRun:
             return r
 
 
+_FRAME = re.compile(r"^\s+(/\S+\.go):\d+")
+
+
+def fatal_in_code_under_test(output):
+    """A harness process killed by the Go runtime (fatal error, unrecovered panic): returns a
+    one-line description when the innermost non-runtime frame of the failing goroutine is in the
+    code under test (a file of the repository that is not an injected harness file), else None."""
+    m = re.search(r"^(fatal error: .*|panic: .*)$", output, re.M)
+    if not m:
+        return None
+    tail = output[m.end():]
+    g = re.search(r"^goroutine \d+ .*\[running\]:?.*$", tail, re.M)
+    block = tail[g.end():] if g else tail
+    block = block.split("\n\n", 1)[0]
+    lines = block.splitlines()
+    for i, ln in enumerate(lines):
+        f = _FRAME.match(ln)
+        if not f:
+            continue
+        path = f.group(1)
+        if "/src/runtime/" in path or "/src/internal/" in path or "/src/sync/" in path:
+            continue
+        inside = path.startswith(os.path.realpath(REPO) + "/") or path.startswith(REPO + "/")
+        if inside and "/zz_" not in path and "/internal/zzverif/" not in path:
+            fn = lines[i - 1].strip().split("(")[0] if i else ""
+            return "%s in %s (%s)" % (m.group(1)[:120], fn.rsplit("/", 1)[-1], os.path.relpath(path, REPO))
+        return None
+    return None
+
+
 def run_harness(binary, testname, cases, wd, cpus=None, tag="", extra_env=None, timeout=3000, max_stalls=5):
     """Runs an overlay harness test over a list of cases (JSON lines in, JSON lines out).
     The harness exits 4 (controlled scheduler stalled) or 5 (free-running hang) after
@@ -392,6 +422,14 @@ def run_harness(binary, testname, cases, wd, cpus=None, tag="", extra_env=None, 
                 raise Inconclusive("harness %s stalled before its first case:\n%s" % (testname, p.stdout[-2000:]))
             resume = json.loads(last)["id"].split(".")[0]
             continue
+        crash = fatal_in_code_under_test(p.stdout)
+        if crash:
+            # the code under test killed the process: that is behaviour of the real code on a
+            # harness input, reported as a trace of its own; the remaining cases are not run
+            with open(op, "a") as f:
+                f.write(json.dumps({"id": "process-crash", "crash": crash, "mode": "crash", "cfg": {}, "events": [],
+                                    "output": p.stdout[-3000:]}) + "\n")
+            break
         raise Inconclusive("harness %s failed (exit %d):\n%s" % (testname, p.returncode, p.stdout[-3000:]))
     else:
         raise Inconclusive("harness %s kept stalling" % testname)
@@ -400,6 +438,11 @@ def run_harness(binary, testname, cases, wd, cpus=None, tag="", extra_env=None, 
         for line in f:
             traces.append(json.loads(line))
     return traces
+
+
+def split_crashes(traces):
+    """Separates the synthetic traces of processes killed inside the code under test."""
+    return [t for t in traces if not t.get("crash")], [t for t in traces if t.get("crash")]
 
 
 def eval_drift(specdir, module, cfg, lines, per_shard=40, max_shards=12):
